@@ -90,7 +90,7 @@ def worker_main(args):
             rcase = ctxmod.unhex(doc['case'])
             if isinstance(rcase, dict) and rcase.get('kind') == 'hammer' and getattr(mod, 'HAMMER', None) is not None:
                 from vlib import concurrent
-                concurrent.hammer(ctx, mod.HAMMER(ctx))        # a concurrency witness is replayed by hammering again
+                concurrent.hammer(ctx, mod.HAMMER(ctx), budget=3 * getattr(mod, 'HAMMER_BUDGET', 3.0))   # a concurrency witness is replayed by hammering again, longer
             else:
                 mod.evaluate(ctx, rcase)
         else:
@@ -135,7 +135,7 @@ def worker_main(args):
                              'time: the library shares state between concurrent calls')
             if not ctx.violation_count and getattr(mod, 'HAMMER', None) is not None and shard == 0:
                 from vlib import concurrent
-                concurrent.hammer(ctx, mod.HAMMER(ctx))
+                concurrent.hammer(ctx, mod.HAMMER(ctx), budget=getattr(mod, 'HAMMER_BUDGET', 3.0))
     except BaseException as e:  # noqa
         tb = traceback.format_exc()
         if _from_repo(e.__traceback__, root):
